@@ -35,7 +35,11 @@ fn dispatch(op: &str, a: &[&str]) -> R {
         "felv26" => ops_field::fel_op(26, true, rest, a),
         "vfe" => {
             let (isa, vop) = rest.split_once('.').ok_or(Fail::BadReq)?;
-            ops_field::vfe_op(isa, vop, a)
+            ops_field::vfe_op(false, isa, vop, a)
+        }
+        "vfel" => {
+            let (isa, vop) = rest.split_once('.').ok_or(Fail::BadReq)?;
+            ops_field::vfe_op(true, isa, vop, a)
         }
         "sc" => ops_scalar::sc_op(rest, a),
         "scl52" => ops_scalar::scl_op(52, rest, a),
